@@ -40,7 +40,7 @@ def gen_plan(rng, tier: str, idx: int) -> dict:
     kind = rng.choice(["finite_given", "finite_extracted", "bernoulli_extracted", "bernoulli_given"])
     return {"sub": "discrete", "kind": kind, "outcomes": outcomes, "probs": [round(p / tot, 4) for p in probs], "p1": round(rng.uniform(0.1, 0.9), 3),
             "n": rng.randint(1, 8), "slope": round(rng.uniform(-1.5, 1.5), 3), "mu": round(rng.uniform(-1, 1), 3), "s": rng.choice([0.7, 1.0, 2.0]),
-            "lik": rng.choice(["normal", "poisson", "none"]), "current": rng.randrange(k), "data_seed": rng.randrange(10**6), "seed": rng.randrange(2**31), "N": N}
+            "lik": rng.choice(["normal", "poisson", "none"]), "latent": rng.random() < 0.5, "w": round(rng.uniform(-2.5, 2.5), 3), "current": rng.randrange(k), "data_seed": rng.randrange(10**6), "seed": rng.randrange(2**31), "N": N}
 
 
 def shrink_candidates(plan):
@@ -164,6 +164,13 @@ def run_discrete(plan, V, log, counters):
         y = lsl.Var(jnp.asarray(yv), lsl.Dist(tfd.Poisson, log_rate=eta), name="y")
         y.observed = True
         roots = [y]
+    if plan.get("latent"):
+        # spike-and-slab style: c selects the prior scale of a latent coefficient w (a parameter,
+        # not an observed variable); this factor belongs to the full conditional of c
+        wscale = lsl.Var(lsl.Calc(lambda cc: 0.4 + 0.9 * jnp.abs(cc), c), name="wscale")
+        w = lsl.Var(jnp.float32(plan["w"]), lsl.Dist(tfd.Normal, loc=jnp.float32(0.0), scale=wscale), name="w")
+        w.parameter = True
+        roots = roots + [w]
     model = lsl.GraphBuilder().add(*roots).build_model()
     iface = gs.LieselInterface(model)
     given = plan["kind"].endswith("given")
@@ -181,8 +188,10 @@ def run_discrete(plan, V, log, counters):
         lpc = lpc + stats.norm.logpdf(yv.astype(F64)[None, :], etas[:, None], plan["s"]).sum(axis=1)
     elif plan["lik"] == "poisson":
         lpc = lpc + stats.poisson.logpmf(yv.astype(F64)[None, :], np.exp(etas)[:, None]).sum(axis=1)
+    if plan.get("latent"):
+        lpc = lpc + stats.norm.logpdf(F64(np.float32(plan["w"])), 0.0, 0.4 + 0.9 * np.abs(o))
     cond = np.exp(lpc - special.logsumexp(lpc))
-    label = f"finite-discrete/{plan['kind']}/{plan['lik']}"
+    label = f"finite-discrete/{plan['kind']}/{plan['lik']}" + ("/latent-prior" if plan.get("latent") else "")
     # (1) proportional to the model's joint as a function of c alone
     vals = jnp.asarray([0, 1], jnp.int32) if bern else jnp.asarray(outcomes, jnp.float32)
     lj = np.asarray(jax.vmap(lambda v: iface.log_prob(iface.update_state({"c": v}, state)))(vals), F64)
@@ -204,6 +213,7 @@ def run_discrete(plan, V, log, counters):
     counters["worst_deviation_over_bound_x1000"] = int(1000 * St.worst)
     counters["probe.outcomes_extracted_from_prior"] = int(not given)
     counters["probe.downstream_likelihood"] = int(plan["lik"] != "none")
+    counters["probe.feeds_prior_of_another_parameter"] = int(bool(plan.get("latent")))
     log.add("discrete", plan["kind"], plan["lik"], round(St.worst, 4))
     return N
 
